@@ -1,6 +1,7 @@
 package main
 
 import (
+	"sync/atomic"
 	"unsafe"
 	"reflect"
 	"runtime"
@@ -111,10 +112,37 @@ func unhx(s string) []byte {
 	}
 	return c[:len(b)]
 }
+// hxOwn prints a byte slice the library returned and takes ownership of it (ownResult); the caller of hxOwn must have
+// finished reading everything that may share memory with b.
+func hxOwn(b []byte) string {
+	h := hx(b)
+	ownResult(b, h)
+	return h
+}
+
 func okHex(b []byte) string {
 	h := hx(b)
-	holdOutput(b, h)
+	ownResult(b, h)
 	return "ok " + h
+}
+
+// ownResult: what the library returned now belongs to the caller.  Three results in four are written over at once (a
+// caller that wipes a hash or reuses a buffer): if the library keeps a reference to what it handed out (a package-level
+// constant returned by reference, a memoised result), a later call answers with the junk.  The fourth is held unchanged
+// and watched (holdOutput): there the library must not write.
+var ownCounter atomic.Uint64
+
+func ownResult(b []byte, hexv string) {
+	if len(b) == 0 {
+		return
+	}
+	if ownCounter.Add(1)%4 == 0 {
+		holdOutput(b, hexv)
+		return
+	}
+	for i := range b {
+		b[i] ^= 0x5A
+	}
 }
 
 // ---- results stay what they were ----------------------------------------------------------------------------
